@@ -39,7 +39,7 @@ ASSUMPTIONS = [
     "and k*dr may fall on different sides); their count is reported",
     "force rows whose numerical-fallback stencil (h=1e-6) crosses a piecewise boundary are not compared",
 ]
-REQUIRED = {"special:root_on_grid": 8, "special:decay_tail": 8, "special:growth": 4, "single_row_table": 2, "route:api_class": 15, "route:writePotentials": 15, "route:potable": 25,
+REQUIRED = {"special:root_on_grid": 8, "special:decay_tail": 8, "special:growth": 4, "single_row_table": 2, "repeated_pair_in_list": 5, "route:api_class": 15, "route:writePotentials": 15, "route:potable": 25,
             "blocks>=2": 20, "force:numeric_fallback": 10, "reversed_labels": 5, "rewrite:2_writes": 2, "defaults:nr_given": 1, "defaults:cutoff_given": 1, "defaults:none_given": 1}
 FMT = ("f", 8)
 
@@ -49,6 +49,13 @@ def _case(draw, nr_max, min_pots=1, max_pots=4, defaults=False):
     route = "potable" if defaults else draw(st.sampled_from(["api_class", "writePotentials", "potable", "potable", "main"]))
     m = draw(gen.pair_model(max_pots, 2, pycallables=(route not in ("potable", "main")), min_pots=min_pots))
     cutoff, nr = draw(gen.grid_rc(nr_max, 2))        # nr = 2: the one-row table "N 1 R cutoff cutoff"
+    if route in ("api_class", "writePotentials") and len(m["pair"]) >= 2 and draw(st.integers(0, 3)) == 0:
+        # the list is the caller's: it may name one pair of species twice (also the other way round); every entry
+        # still gets its own block, in list order
+        i, j = draw(st.permutations(list(range(len(m["pair"])))))[:2]
+        a, b = m["pair"][i][0], m["pair"][i][1]
+        m["pair"][j][0], m["pair"][j][1] = (b, a) if draw(st.booleans()) else (a, b)
+        m["repeated_pair"] = True
     if route == "potable":
         # [Tabulation] items may be left out: documented defaults cutoff 10.0, nr 1001
         given = defaults if defaults else "both"
@@ -282,6 +289,8 @@ def check_case(case):
         cls.append("nr>60")
     if case["nr"] == 2:
         cls.append("single_row_table")
+    if case.get("repeated_pair"):
+        cls.append("repeated_pair_in_list")
     if case.get("given", "both") != "both":
         cls.append("defaults:" + case["given"] + "_given")
     rk = "api" if case["route"] not in ("potable", "cli", "main") else "potable"
@@ -327,6 +336,8 @@ def extra(tier, seed, record):
               phases=[Phase.generate])
     @given(_case(40))
     def run(case):
+        if case.get("repeated_pair"):
+            return              # a potable file may define each pair once (C20): such lists exist on the API routes only
         case = dict(case, route="cli")
         case["pair"] = [[a, b, pairtab.strip_has(pd)] for a, b, pd in case["pair"]]
         res = check_case(case)
